@@ -683,6 +683,14 @@ func rulesC03(c *Ctx) {
 					okq = true
 				}
 			}
+			if !okq {
+				// a payload that is not a batch is one message: there is no rest (readBatch's second result is false)
+				if rbf := c.P.LookupFuncObj(pM, "", "readBatch"); rbf != nil {
+					if bv := rd.VarFromCall(rbf, 1); bv != nil && hasAtom(rg.GuardsAt(rg.VertexOf(r)), func(a Atom) bool { return !a.Val && rd.ObjOf(a.E) == bv }) {
+						okq = true
+					}
+				}
+			}
 			c.Check(okq, "ioConn.Read:rest-queued-before-head-returned#"+itoa(i), rd, r, "t.queue = msgs[1:] dominates this return of msgs[0]")
 		}
 		// the queue is drained before new input is read
